@@ -12,6 +12,10 @@ PROPS = {
                 technique="TLA+ stack-machine spec of the formula grammar; TLC exhaustive slices -> generated cases replayed into the parser; TLC trace validation of seeded parser executions",
                 text="TLC enumerates every formula of the sliced bounded grammars (all 118 symbols and all 118^2 adjacencies; nesting, counts, hydrates, charges/prefixes/suffixes, the three rejection classes), checks operational = declarative denotation on each state, and each terminal state is replayed into formula_to_composition and Substance.from_formula; seeded token sequences beyond the bounds are judged by TLC trace validation.",
                 note="bounded slices + sampling beyond; symbol table in spec/Periodic.tla is the trusted reference; float counts encoded as rationals to 1e-12"),
+    "C13": dict(claimed=True, level=MC, design_ref="4/C13",
+                technique="TLA+ Formula spec derives abstract presentation tokens; un-presentation lexers bind the three renderers to it (TLC-generated cases + TLC trace validation); ReactionRender.tla for printed reactions",
+                text="For every formula of the sliced exhaustive Formula_MC configs TLC derives the presentation tokens a faithful rendering shows; the LaTeX/Unicode/HTML outputs (functions and Substance/Species attributes) are un-presented and must equal them, the re-assembled text must parse to the spec's composition, phase_idx must equal the spec's; printed reactions/equilibria in four printers are compared with ReactionRender's token sequences; seeded deeper formulas are judged by TLC trace validation.",
+                note="un-presentation lexers (format tables) are trusted; bounded slices + seeded sampling beyond"),
 }
 for _i in range(2, 21):
     PROPS.setdefault("C%02d" % _i, dict(claimed=False))
